@@ -190,6 +190,67 @@ def annotate_event(tid, ps, future, rnd):
             'case': {'op': 'annotate', 'ins': [ps], 'future': future, 'chosen': chosen}}
 
 
+def annotate_forwarding_event(tid, ps, future, rnd):
+    """the same when the decorated function FORWARDS its star parameters (automatic discovery looks at it): the values given to annotate
+    for its own parameters and for the return annotation are still reported, verbatim"""
+    from sigtools import modifiers
+    import sigtools
+    va = next((p['n'] for p in ps if p['k'] == 'var'), None)
+    vk = next((p['n'] for p in ps if p['k'] == 'vkw'), None)
+    call = 'return TARGET_(%s)' % ', '.join(x for x in ('*' + va if va else None, '**' + vk if vk else None) if x)
+
+    def target_(q1=None, *, q2=None):
+        return None
+    g = {'A%d' % a: absig.AN[10 + a] for a in (1, 2)}
+    g['TARGET_'] = target_
+    f = absig.make_func(ps, name='f1', extra_globals=g, future=future, body=call, register_source=True)
+    named = [p['n'] for p in ps if p['k'] not in ('var', 'vkw')]
+    chosen = rnd.sample(named, rnd.randrange(1, len(named) + 1)) if named else []
+    vals = {n: absig.AN[30 + k] for k, n in enumerate(chosen)}
+    try:
+        d = modifiers.annotate(absig.AN[38], **vals)(f)
+        s = sigtools.signature(d)
+        got = {q['n']: q['an'] for q in project_sv(s)}
+        gotret = sv_id(s.upgraded_return_annotation)
+        tag = 'sig'
+    except Exception as e:  # noqa
+        got, gotret, tag = {}, 0, 'other'
+    own = [p for p in ps if p['k'] not in ('var', 'vkw')]
+    want = [dict(p, an=(30 + chosen.index(p['n']) if p['n'] in chosen else denote(1, p['an'], True)), d=False, dv=0, k='pok') for p in own]
+    res = [dict(p, an=got.get(p['n'], -1)) for p in want]
+    return {'tid': tid, 'op': 'law', 'law': 'C11_AnnotateValuesNotVerbatim', 'cmp': 'ps', 'pre': 'none', 'side': gotret == 38, 'ins': [],
+            'results': [{'tag': 'sig', 'ps': want}, {'tag': tag, 'ps': res if tag == 'sig' else []}],
+            'case': {'op': 'annotate-forwarding', 'ins': [ps], 'future': future, 'chosen': chosen}}
+
+
+def wraps_event(tid, ps, inner_future, wrapper_future):
+    """a functools.wraps wrapper defined in OTHER globals (and possibly compiled the other way) than the function it wraps: the signature read
+    through __wrapped__ carries the wrapped function's annotations, which denote what they denote where THAT function was defined"""
+    import functools
+    from sigtools import signatures
+    gi = {'A%d' % a: absig.AN[10 + a] for a in (1, 2)}
+    inner = absig.make_func(ps, name='f1', extra_globals=gi, future=inner_future, ret='A2')
+    gw = {'A%d' % a: absig.AN[20 + a] for a in (1, 2)}          # the same spellings denote other objects around the wrapper
+    gw['inner_'] = inner
+    gw['functools'] = functools
+    w = absig.make_func([{'n': 'args', 'k': 'var', 'd': False, 'dv': 0, 'an': 0}, {'n': 'kwargs', 'k': 'vkw', 'd': False, 'dv': 0, 'an': 0}], name='f2',
+                        extra_globals=gw, future=wrapper_future, body='return inner_(*args, **kwargs)')
+    w = functools.wraps(inner)(w)
+    want = [dict(p, an=(10 + p['an'] if p['an'] else 0)) for p in ps]
+    try:
+        sg = signatures.signature(w)
+        got, gotret, tag = project_sv(sg), sv_id(sg.upgraded_return_annotation), 'sig'
+        try:
+            ev = absig.project_params(sg.evaluated())
+        except Exception:  # noqa
+            ev = []
+    except Exception as e:  # noqa
+        got, gotret, tag, ev = [], 0, 'other', []
+    return {'tid': tid, 'op': 'law', 'law': 'C11_AnnotationsThroughWrapsNotTheWrappedFunctions', 'cmp': 'ps', 'pre': 'none', 'side': gotret == 12 and ev == want, 'ins': [],
+            'results': [{'tag': 'sig', 'ps': want}, {'tag': tag, 'ps': got}],
+            'case': {'op': 'wraps', 'ins': [ps], 'inner_future': inner_future, 'wrapper_future': wrapper_future}}
+
+
 def gen(UM, seed, n):
     def g(shard, nshards):
         rnd = random.Random(seed)
@@ -216,6 +277,10 @@ def gen(UM, seed, n):
                     yield twin_event('twin/%d' % k, rop, pss, fl, per_function)
                 if k % 5 == 0:
                     yield annotate_event('annot/%d' % k, pss[0], future, random.Random(k))
+                if k % 7 == 2:
+                    yield wraps_event('wraps/%d' % k, pss[0], bool(k % 2), bool((k // 2) % 2))
+                if k % 5 == 1 and alggen.has_star(pss[0]) and any(p['k'] not in ('var', 'vkw') for p in pss[0]):
+                    yield annotate_forwarding_event('annotfwd/%d' % k, pss[0], future, random.Random(k))
             k += 1
     return g
 
@@ -256,6 +321,10 @@ def replay(check, case, scratch):
             return
         if c.get('twin'):
             yield twin_event(case['tid'], c['op'], c['ins'], {k: v for k, v in c['fl'].items() if k in ('uva', 'uvk', 'n', 'names')}, c['per_function'])
+        elif c['op'] == 'wraps':
+            yield wraps_event(case['tid'], c['ins'][0], c['inner_future'], c['wrapper_future'])
+        elif c['op'] == 'annotate-forwarding':
+            yield annotate_forwarding_event(case['tid'], c['ins'][0], c['future'], random.Random(int(case['tid'].split('/')[1])))
         elif c['op'] == 'annotate':
             yield annotate_event(case['tid'], c['ins'][0], c['future'], random.Random(int(case['tid'].split('/')[1])))
         else:
